@@ -23,7 +23,7 @@ pub(crate) fn any_operating() -> OperatingState {
     }
 }
 
-use crate::dp::peripheral::verif::{any_fdl, any_peripheral, inv_dp, ref_goes_offline, ref_will_send, snap, PSnap};
+use crate::dp::peripheral::verif::{any_fdl, light_peripheral, inv_dp, ref_goes_offline, ref_will_send, snap, PSnap};
 use crate::dp::peripheral_set::verif::{mk_slot, peek, slots};
 use crate::fdl::{FdlApplication, FdlActiveStation, HighPrioOnly, TelegramTx, DataTelegramHeader, FunctionCode, FrameCountBit, RequestType};
 
@@ -52,7 +52,15 @@ fn resolves_to(m: &DpMaster, c: CycleState, s: usize) -> bool {
 }
 
 /// One `transmit_telegram` call of a DP master with symbolic slots; see DESIGN §4 C14.
-fn check_master_transmit(m: &mut DpMaster, fdl: &FdlActiveStation) {
+#[derive(Clone, Copy, PartialEq, Eq)]
+enum Turn {
+    /// the global-control telegram is due (low-priority turn, never sent or 50 slot times ago)
+    GlobalControlDue,
+    /// it is not due: the slot walk
+    SlotWalk,
+}
+
+fn check_master_transmit(m: &mut DpMaster, fdl: &FdlActiveStation, turn: Turn) {
     let n = slots(&m.peripherals);
     let mut pre: [Option<PSnap>; MAXS] = [None; MAXS];
     let mut sends = [false; MAXS];
@@ -75,6 +83,15 @@ fn check_master_transmit(m: &mut DpMaster, fdl: &FdlActiveStation) {
     let now = crate::time::Instant::from_micros(now_us);
     if let Some(t) = pre_lgc {
         kani::assume(t <= now);
+    }
+    {
+        let due = op != OperatingState::Stop
+            && hp == HighPrioOnly::No
+            && match pre_lgc {
+                None => true,
+                Some(t) => (now - t) >= fdl.parameters().slot_time() * 50,
+            };
+        kani::assume(due == (turn == Turn::GlobalControlDue));
     }
 
     let mut buf = [0u8; 24];
@@ -256,18 +273,18 @@ fn any_master_state(nslots: usize) -> DpMasterState {
 macro_rules! slot_bufs {
     ($i:ident, $q:ident, $d:ident) => {
         let mut $i = [0u8; 1];
-        let mut $q: [u8; 1] = kani::any();
-        let mut $d = [0u8; 1];
+        let mut $q = [0u8; 1];
+        #[allow(unused)]
+        let $d = ();
     };
 }
 
 macro_rules! any_slot {
     ($i:ident, $q:ident, $d:ident, $user:ident, $cfg:ident) => {
         mk_slot(if kani::any() {
-            Some(any_peripheral(
+            Some(light_peripheral(
                 &mut $i[..],
                 &mut $q[..],
-                &mut $d[..],
                 if kani::any() { Some(&$user[..]) } else { None },
                 if kani::any() { Some(&$cfg[..]) } else { None },
             ))
@@ -276,6 +293,46 @@ macro_rules! any_slot {
         })
     };
 }
+
+macro_rules! fixed_slot {
+    (true, $i:ident, $q:ident, $d:ident, $user:ident, $cfg:ident) => {
+        mk_slot(Some(light_peripheral(
+            &mut $i[..],
+            &mut $q[..],
+            if kani::any() { Some(&$user[..]) } else { None },
+            if kani::any() { Some(&$cfg[..]) } else { None },
+        )))
+    };
+    (false, $i:ident, $q:ident, $d:ident, $user:ident, $cfg:ident) => {
+        mk_slot(None)
+    };
+}
+
+/// Two storage slots with a CONCRETE occupancy pattern (the four patterns are four harnesses):
+/// a symbolic `Option<Peripheral>` makes CBMC copy the whole peripheral under a symbolic guard
+/// and dominated the cost of the symbolic-occupancy harness.
+macro_rules! master_2slots {
+    ($name:ident, $o0:tt, $o1:tt) => {
+        #[kani::proof]
+        #[kani::unwind(6)]
+        #[kani::stub(crate::dp::peripheral::Peripheral::transmit_telegram, crate::dp::peripheral::verif::abs_transmit_telegram)]
+        fn $name() {
+            let fdl = any_fdl();
+            let user: [u8; 1] = kani::any();
+            let cfg: [u8; 1] = kani::any();
+            slot_bufs!(i0, q0, d0);
+            slot_bufs!(i1, q1, d1);
+            let mut storage = [fixed_slot!($o0, i0, q0, d0, user, cfg), fixed_slot!($o1, i1, q1, d1, user, cfg)];
+            let mut m = DpMaster::new(&mut storage[..]);
+            m.state = any_master_state(2);
+            check_master_transmit(&mut m, &fdl, Turn::SlotWalk);
+        }
+    };
+}
+master_2slots!(c14_master_transmit_2slots_both_q, true, true);
+master_2slots!(c14_master_transmit_2slots_first_q, true, false);
+master_2slots!(c14_master_transmit_2slots_second_q, false, true);
+master_2slots!(c14_master_transmit_2slots_none_q, false, false);
 
 #[kani::proof]
 #[kani::unwind(10)]
@@ -289,7 +346,7 @@ fn c14_master_transmit_2slots_q() {
     let mut storage = [any_slot!(i0, q0, d0, user, cfg), any_slot!(i1, q1, d1, user, cfg)];
     let mut m = DpMaster::new(&mut storage[..]);
     m.state = any_master_state(2);
-    check_master_transmit(&mut m, &fdl);
+    check_master_transmit(&mut m, &fdl, Turn::SlotWalk);
 }
 
 #[kani::proof]
@@ -309,7 +366,7 @@ fn c14_master_transmit_3slots_t() {
     ];
     let mut m = DpMaster::new(&mut storage[..]);
     m.state = any_master_state(3);
-    check_master_transmit(&mut m, &fdl);
+    check_master_transmit(&mut m, &fdl, Turn::SlotWalk);
 }
 
 /// The empty DP master (no peripheral configured) ends its turn.  Small dedicated harness: the
@@ -481,4 +538,20 @@ fn witness_f11_two_offline_events() {
         }
         let _ = m.take_last_events();
     }
+}
+
+/// The global-control turn (no peripheral is touched by it; an unoccupied slot keeps the
+/// alternative path - the slot walk - trivial for the symbolic executor).
+#[kani::proof]
+#[kani::unwind(10)]
+#[kani::stub(crate::dp::peripheral::Peripheral::transmit_telegram, crate::dp::peripheral::verif::abs_transmit_telegram)]
+fn c14_master_global_control() {
+    let fdl = any_fdl();
+    let user: [u8; 1] = kani::any();
+    let cfg: [u8; 1] = kani::any();
+    let _ = (user, cfg);
+    let mut storage = [mk_slot(None)];
+    let mut m = DpMaster::new(&mut storage[..]);
+    m.state = any_master_state(1);
+    check_master_transmit(&mut m, &fdl, Turn::GlobalControlDue);
 }
